@@ -14,6 +14,7 @@ MODEL_TRUST = [
 
 class C02(Prop):
     id = 'C02'
+    also_release = True
     module = 'Cbor.Props.C02'
     extra_modules = ['Cbor.Props.HeapLoad']
     theorems = ['Props.HeapLoad.loaded_tree_owned', 'Props.HeapLoad.hload_result', 'HB.hload_refines', 'Props.C02.C02_load_iff', 'Props.C02.C02_load_eq', 'Props.C02.C02_tokenise', 'Props.C02.C02_read_bounds',
